@@ -8,22 +8,16 @@
 package main
 
 import (
-	"bufio"
-	"encoding/json"
 	"fmt"
 	"math/big"
-	"os"
-	"sort"
 	"strconv"
 	"strings"
 	"time"
 
-	"github.com/openGemini/openGemini/coordinator"
 	"github.com/openGemini/openGemini/lib/config"
 	"github.com/openGemini/openGemini/lib/util/lifted/influx/influxql"
 	"github.com/openGemini/openGemini/lib/util/lifted/influx/meta"
 	proto2 "github.com/openGemini/openGemini/lib/util/lifted/influx/meta/proto"
-	"github.com/openGemini/openGemini/lib/util/lifted/vm/protoparser/influx"
 	"verifharness/internal/gen"
 )
 
@@ -57,11 +51,13 @@ type Group struct {
 	Trunc   *string `json:"trunc"` // TruncatedAt or null
 	Shards  []Shard `json:"shards"`
 	Alive   []int   `json:"alive"`
-	MstIdx  []int   `json:"mstidx"` // per-measurement shard index list, null when InitNumOfShards == 0
-	Born    int     `json:"born"`   // index of the point whose routing created the group, -1 = existed before
+	Born    int     `json:"born"` // index of the point whose routing created the group, -1 = existed before
 }
 
 type Point struct {
+	M        int         `json:"m"`        // measurement index
+	NewBatch bool        `json:"newbatch"` // the row starts a new write batch (fresh ingestion context)
+	Conflict bool        `json:"conflict"` // the row's only field has the wrong type: dropped by the schema check
 	Tags  [][2]string `json:"tags"`
 	Time  int64       `json:"time"`
 	Leaf  []bool      `json:"leaf"` // truth of every leaf of the condition on this point
@@ -72,7 +68,6 @@ type Point struct {
 	SID   uint64      `json:"sid"`
 	Hash  string      `json:"hash"`  // HashID of the hashed shard-key bytes (decimal), "" when not routed by hash
 	HKey  string      `json:"hkey"`  // the hashed bytes
-	Fresh bool        `json:"fresh"` // routed through a fresh ingestion context (no cached group)
 }
 
 type Target struct {
@@ -80,15 +75,33 @@ type Target struct {
 	SIDs []uint64 `json:"sids"`
 }
 
-type Cfg struct {
+type Ver struct {
+	From uint64   `json:"from"` // ShardKeyInfo.ShardGroup
+	SK   []string `json:"sk"`
+}
+type GIdx struct {
+	GID uint64 `json:"gid"`
+	Idx []int  `json:"idx"`
+}
+type MstCfg struct {
 	Mst     string   `json:"mst"`
 	MstVer  string   `json:"mstver"` // name with version: the bytes that prefix the shard key
 	TagKeys []string `json:"tagkeys"`
-	SK      []string `json:"sk"` // null = no shard key
+	SK      []string `json:"sk"` // shard key at creation, null = none
+	InitNum int      `json:"initnum"`
+	Vers    []Ver    `json:"vers"`   // MeasurementInfo.ShardKeys after the run
+	MstIdx  []GIdx   `json:"mstidx"` // MeasurementInfo.ShardIdexes after the run, null when InitNumOfShards == 0
+}
+type Alter struct {
+	At int      `json:"at"` // applied before this point (which starts a new batch)
+	M  int      `json:"m"`
+	SK []string `json:"sk"`
+}
+type Cfg struct {
+	Msts    []MstCfg `json:"msts"`
 	Typ     string   `json:"typ"`
 	Dur     int64    `json:"dur"`
 	PtNum   int      `json:"ptnum"`
-	InitNum int      `json:"initnum"`
 	Offline []int    `json:"offline"`
 }
 
@@ -98,6 +111,8 @@ type Case struct {
 	CondText string        `json:"condtext"`
 	Split    bool          `json:"split"` // condition went through influxql.ConditionExpr (time bounds moved to the range)
 	Cfg      Cfg           `json:"cfg"`
+	QM       int           `json:"qm"`    // measurement the query reads
+	Alter    *Alter        `json:"alter"` // ALTER ... SHARDKEY between two batches, or null
 	HasCond  bool          `json:"hascond"`
 	Cond     *Node         `json:"cond"`
 	NLeaf    int           `json:"nleaf"`
@@ -108,8 +123,8 @@ type Case struct {
 	TMax     int64         `json:"tmax"`
 	QGroups  []uint64      `json:"qgroups"`
 	Targets  []Target      `json:"targets"`
+	Mapped   []uint64      `json:"mapped"` // shard ids ClusterShardMapper.mapMstShards consults
 	Oracle   []string      `json:"oracle"`
-	Shape    []string      `json:"shape"` // features of the condition used by finding signatures
 }
 
 // ---------------------------------------------------------------------------------------------
@@ -119,7 +134,10 @@ type mclient struct {
 	data    *meta.Data
 	offline map[int]bool
 	born    map[uint64]int
-	cur     int
+	cur     int     // default creator index (-1 = set-up)
+	curBase int     // index of the first point of the running batch
+	times   []int64 // timestamps of the rows of the running batch
+	skip    []bool  // rows of the batch that never reach the routing step
 }
 
 func (m *mclient) Database(name string) (*meta.DatabaseInfo, error) { return m.data.Databases[name], nil }
@@ -147,7 +165,14 @@ func (m *mclient) CreateShardGroup(database, policy string, ts time.Time, versio
 	}
 	for i := range rpi.ShardGroups {
 		if !before[rpi.ShardGroups[i].ID] {
-			m.born[rpi.ShardGroups[i].ID] = m.cur
+			b := m.cur
+			for k, t := range m.times { // the row whose routing asked for the group
+				if t == ts.UnixNano() && !(k < len(m.skip) && m.skip[k]) {
+					b = m.curBase + k
+					break
+				}
+			}
+			m.born[rpi.ShardGroups[i].ID] = b
 		}
 	}
 	g := rpi.ShardGroupByTimestampAndEngineType(ts, et)
@@ -160,6 +185,18 @@ func (m *mclient) CreateShardGroup(database, policy string, ts time.Time, versio
 func (m *mclient) DBPtView(database string) (meta.DBPtInfos, error) { return nil, nil }
 func (m *mclient) Measurement(database, rp, mst string) (*meta.MeasurementInfo, error) {
 	return m.data.Measurement(database, rp, mst)
+}
+
+// read side of the meta client (coordinator.VerifC11ReadMeta)
+func (m *mclient) GetMeasurements(ms *influxql.Measurement) ([]*meta.MeasurementInfo, error) {
+	mi, err := m.data.Measurement(ms.Database, ms.RetentionPolicy, ms.Name)
+	if err != nil {
+		return nil, err
+	}
+	return []*meta.MeasurementInfo{mi}, nil
+}
+func (m *mclient) ShardGroupsByTimeRange(database, policy string, min, max time.Time) ([]meta.ShardGroupInfo, error) {
+	return m.data.ShardGroupsByTimeRange(database, policy, min, max)
 }
 func (m *mclient) UpdateSchema(database, rp, mst string, f []*proto2.FieldSchema) error { return nil }
 func (m *mclient) CreateMeasurement(database, rp, mst string, sk *meta.ShardKeyInfo, n int32, ir *influxql.IndexRelation, et config.EngineType,
@@ -193,88 +230,6 @@ func nsString(t time.Time) string {
 	return b.String()
 }
 
-type world struct {
-	cfg  Cfg
-	data *meta.Data
-	mc   *mclient
-	mst  *meta.MeasurementInfo
-	dbi  *meta.DatabaseInfo
-	rpi  *meta.RetentionPolicyInfo
-}
-
-func newWorld(cfg Cfg) *world {
-	w := &world{cfg: cfg}
-	w.data = &meta.Data{Databases: map[string]*meta.DatabaseInfo{}, ClusterPtNum: uint32(cfg.PtNum), PtNumPerNode: uint32(cfg.PtNum)}
-	w.dbi = &meta.DatabaseInfo{Name: dbName, DefaultRetentionPolicy: rpName, RetentionPolicies: map[string]*meta.RetentionPolicyInfo{}}
-	w.rpi = &meta.RetentionPolicyInfo{Name: rpName, ReplicaN: 1, Duration: 0, ShardGroupDuration: time.Duration(cfg.Dur),
-		IndexGroupDuration: time.Duration(cfg.Dur), Measurements: map[string]*meta.MeasurementInfo{}}
-	w.dbi.RetentionPolicies[rpName] = w.rpi
-	w.data.Databases[dbName] = w.dbi
-	nameVer := influx.GetNameWithVersion(cfg.Mst, 0)
-	w.mst = meta.NewMeasurementInfo(nameVer, cfg.Mst, config.TSSTORE, 1)
-	for _, k := range cfg.TagKeys {
-		w.mst.Schema.SetTyp(k, influx.Field_Type_Tag)
-	}
-	w.mst.Schema.SetTyp("usage", influx.Field_Type_Float)
-	w.mst.Schema.SetTyp("cnt", influx.Field_Type_Int)
-	w.mst.Schema.SetTyp("msg", influx.Field_Type_String)
-	var sk []string
-	if cfg.SK != nil {
-		sk = append([]string{}, cfg.SK...)
-	}
-	w.mst.ShardKeys = []meta.ShardKeyInfo{{ShardKey: sk, Type: cfg.Typ, ShardGroup: 0}}
-	w.mst.InitNumOfShards = int32(cfg.InitNum)
-	w.mst.ShardIdexes = map[uint64][]int{}
-	w.rpi.Measurements[nameVer] = w.mst
-	w.mc = &mclient{data: w.data, offline: map[int]bool{}, born: map[uint64]int{}, cur: -1}
-	for _, o := range cfg.Offline {
-		w.mc.offline[o] = true
-	}
-	return w
-}
-
-// a hand-built group with key ranges (the state a range-sharded policy is in after resharding)
-func (w *world) addRangeGroup(start time.Time, bounds []string) {
-	w.data.MaxShardGroupID++
-	sg := meta.ShardGroupInfo{ID: w.data.MaxShardGroupID, StartTime: start.UTC(), EndTime: start.Add(time.Duration(w.cfg.Dur)).UTC(), EngineType: config.TSSTORE}
-	n := len(bounds) + 1
-	for i := 0; i < n; i++ {
-		w.data.MaxShardID++
-		sh := meta.ShardInfo{ID: w.data.MaxShardID, Owners: []uint32{uint32(i % w.cfg.PtNum)}}
-		if i > 0 {
-			sh.Min = bounds[i-1]
-		}
-		if i < n-1 {
-			sh.Max = bounds[i]
-		}
-		sg.Shards = append(sg.Shards, sh)
-	}
-	w.rpi.ShardGroups = append(w.rpi.ShardGroups, sg)
-	sort.Sort(meta.ShardGroupInfos(w.rpi.ShardGroups))
-	w.mc.born[sg.ID] = -1
-}
-
-func (w *world) snapshotGroups() []Group {
-	var res []Group
-	for i := range w.rpi.ShardGroups {
-		sg := &w.rpi.ShardGroups[i]
-		g := Group{ID: sg.ID, Start: nsString(sg.StartTime), End: nsString(sg.EndTime), Deleted: sg.Deleted(), Born: w.mc.born[sg.ID]}
-		if sg.Truncated() {
-			s := nsString(sg.TruncatedAt)
-			g.Trunc = &s
-		}
-		for _, sh := range sg.Shards {
-			g.Shards = append(g.Shards, Shard{sh.ID, sh.Min, sh.Max})
-		}
-		g.Alive = w.mc.GetAliveShards(dbName, sg, true)
-		if w.mst.InitNumOfShards != 0 {
-			g.MstIdx = append([]int{}, w.mst.ShardIdexes[sg.ID]...)
-		}
-		res = append(res, g)
-	}
-	return res
-}
-
 // ---------------------------------------------------------------------------------------------
 // conditions
 
@@ -282,7 +237,7 @@ var valPool = []string{"a", "b", "c", "1", "2", "", "a,b", "x=y"}
 
 type condGen struct {
 	r    *gen.Rand
-	cfg  *Cfg
+	sk   []string // shard-key tags of the queried measurement (all versions)
 	keys []string // tag keys usable in predicates (schema tags + one unknown)
 }
 
@@ -299,8 +254,8 @@ func (g *condGen) tagVal() string {
 func (g *condGen) leaf(preferSK bool) string {
 	r := g.r
 	k := gen.Pick(r, g.keys)
-	if preferSK && len(g.cfg.SK) > 0 && r.Chance(3, 4) {
-		k = gen.Pick(r, g.cfg.SK)
+	if preferSK && len(g.sk) > 0 && r.Chance(3, 4) {
+		k = gen.Pick(r, g.sk)
 	}
 	qk := `"` + k + `"`
 	switch c := r.Intn(20); {
@@ -475,67 +430,6 @@ func evalNode(n *Node, leaf []bool) bool {
 	return leaf[n.ID]
 }
 
-// shape features for finding signatures: computed on the model-shaped tree with the schema
-// constrained(n): the subtree yields a shard-key-tag constraint under the REPAIRED reading
-func constrained(n *Node, cfg *Cfg) bool {
-	switch n.Op {
-	case "and":
-		return constrained(n.L, cfg) || constrained(n.R, cfg)
-	case "or":
-		return constrained(n.L, cfg) && constrained(n.R, cfg)
-	case "eqstr":
-		if strings.ToLower(n.K) == "time" {
-			return false
-		}
-		for _, k := range cfg.TagKeys {
-			if k == n.K {
-				return true
-			}
-		}
-	}
-	return false
-}
-
-// anyConstraint(n): the subtree contains some tag equality the CURRENT code would pick up
-func anyConstraint(n *Node, cfg *Cfg) bool {
-	switch n.Op {
-	case "and", "or":
-		return anyConstraint(n.L, cfg) || anyConstraint(n.R, cfg)
-	case "eqstr":
-		return constrained(n, cfg)
-	}
-	return false
-}
-
-func shapes(n *Node, cfg *Cfg, underAnd bool, out map[string]bool) {
-	switch n.Op {
-	case "or":
-		cl, cr := constrained(n.L, cfg), constrained(n.R, cfg)
-		al, ar := anyConstraint(n.L, cfg), anyConstraint(n.R, cfg)
-		if (al || ar) && (!cl || !cr) {
-			out["or-unconstrained-operand"] = true
-		}
-		if cl && cr {
-			out["or-both-constrained"] = true
-		}
-		if underAnd {
-			out["or-directly-under-and"] = true
-		}
-		shapes(n.L, cfg, false, out)
-		shapes(n.R, cfg, false, out)
-	case "and":
-		shapes(n.L, cfg, true, out)
-		shapes(n.R, cfg, true, out)
-	case "paren":
-		// getConditionTags does not look inside
-	}
-}
-
-// ---------------------------------------------------------------------------------------------
-// case generation
-
-var tagUniverse = []string{"az", "dc", "host", "rack", "zone", "TIME"}
-
 func alignedStart(t int64, d int64) int64 {
 	// Go's Truncate, recomputed independently: multiples of d counted from year 1
 	const epochShiftSec = 62135596800
@@ -544,555 +438,3 @@ func alignedStart(t int64, d int64) int64 {
 	return new(big.Int).Sub(big.NewInt(t), m).Int64()
 }
 
-func genCfg(r *gen.Rand) Cfg {
-	cfg := Cfg{Mst: gen.Pick(r, []string{"m", "cpu", "mem_1", "m,x"})}
-	nk := r.Range(2, 5)
-	perm := append([]string{}, tagUniverse...)
-	for i := range perm {
-		j := i + r.Intn(len(perm)-i)
-		perm[i], perm[j] = perm[j], perm[i]
-	}
-	cfg.TagKeys = append([]string{}, perm[:nk]...)
-	sort.Strings(cfg.TagKeys)
-	nsk := []int{0, 1, 1, 1, 2, 2, 3}[r.Intn(7)]
-	if nsk > nk {
-		nsk = nk
-	}
-	if nsk > 0 {
-		sk := append([]string{}, perm[:nsk]...)
-		sort.Strings(sk)
-		cfg.SK = sk
-	}
-	cfg.Typ = meta.HASH
-	if r.Chance(1, 4) {
-		cfg.Typ = meta.RANGE
-	}
-	h := int64(time.Hour)
-	cfg.Dur = gen.Pick(r, []int64{h, 24 * h, 7 * 24 * h, 7 * 24 * h, int64(time.Minute), 37 * int64(time.Minute), 5 * h, 1000000007})
-	cfg.PtNum = r.Range(1, 16)
-	if r.Chance(1, 5) {
-		cfg.PtNum = gen.Pick(r, []int{1, 2, 8, 16})
-	}
-	if cfg.Typ == meta.HASH && r.Chance(1, 6) {
-		cfg.InitNum = r.Range(1, cfg.PtNum)
-	}
-	if cfg.Typ == meta.HASH && cfg.InitNum == 0 && cfg.PtNum > 2 && r.Chance(1, 6) {
-		cfg.Offline = []int{r.Intn(cfg.PtNum)}
-	}
-	return cfg
-}
-
-func genTimes(r *gen.Rand, d int64) []int64 {
-	base := int64(1700000000) * 1000000000
-	var ts []int64
-	b0 := alignedStart(base+int64(r.Intn(1000))*d, d)
-	for _, k := range []int64{0, 1, 2} {
-		b := b0 + k*d
-		ts = append(ts, b, b-1, b+1, b+d/2)
-	}
-	ts = append(ts, 0, -1, 1, -d, d-1)
-	return ts
-}
-
-func genPointTags(r *gen.Rand, cfg *Cfg, prefer map[string][]string) [][2]string {
-	var tags [][2]string
-	for _, k := range cfg.TagKeys {
-		isSK := false
-		for _, s := range cfg.SK {
-			if s == k {
-				isSK = true
-			}
-		}
-		p := 4
-		if isSK {
-			p = 19
-		}
-		if !r.Chance(p, p+1) {
-			continue
-		}
-		v := gen.Pick(r, valPool[:5])
-		if vs := prefer[k]; len(vs) > 0 && r.Chance(2, 3) {
-			v = gen.Pick(r, vs)
-		}
-		if v == "" {
-			continue // the line protocol cannot carry an empty tag value
-		}
-		tags = append(tags, [2]string{k, v})
-	}
-	if len(tags) > 1 && r.Chance(1, 40) {
-		i := r.Intn(len(tags) - 1)
-		tags[i+1][0] = tags[i][0] // duplicate key (rejected by the write path)
-	}
-	return tags
-}
-
-func collectPrefer(n *Node, out map[string][]string) {
-	if n == nil {
-		return
-	}
-	if n.Op == "eqstr" {
-		out[n.K] = append(out[n.K], n.V)
-	}
-	collectPrefer(n.L, out)
-	collectPrefer(n.R, out)
-}
-
-type condSpec struct {
-	label string
-	expr  influxql.Expr // nil = no condition
-	text  string
-}
-
-func runCase(n int, cfg Cfg, cs condSpec, pts []Point, tmin, tmax int64, split bool, pre func(w *world)) Case {
-	cfg.MstVer = influx.GetNameWithVersion(cfg.Mst, 0)
-	c := Case{N: n, Label: cs.label, CondText: cs.text, Cfg: cfg, TMin: tmin, TMax: tmax, Oracle: []string{}, Shape: []string{}}
-	w := newWorld(cfg)
-	if pre != nil {
-		pre(w)
-	}
-	cond := cs.expr
-	if cond != nil && split {
-		// the query layer's own split of time bounds from the rest of the condition
-		rest, tr, err := influxql.ConditionExpr(cond, &influxql.NowValuer{Now: time.Unix(1700000000, 0)})
-		if err == nil {
-			c.Split = true
-			cond = rest
-			if !tr.Min.IsZero() && tr.Min.UnixNano() > c.TMin {
-				c.TMin = tr.Min.UnixNano()
-			}
-			if !tr.Max.IsZero() && tr.Max.UnixNano() < c.TMax {
-				c.TMax = tr.Max.UnixNano()
-			}
-		}
-	}
-	var leaves []influxql.Expr
-	if cond != nil {
-		c.HasCond = true
-		c.Cond = toNode(cond, &leaves)
-		c.CondText = cond.String()
-		sh := map[string]bool{}
-		shapes(c.Cond, &cfg, false, sh)
-		for k := range sh {
-			c.Shape = append(c.Shape, k)
-		}
-		sort.Strings(c.Shape)
-	}
-	c.NLeaf = len(leaves)
-
-	// ---- write side: route every point through the real PointsWriter step
-	router := coordinator.VerifC11NewRouter(w.mc, w.dbi, w.mst)
-	for i := range pts {
-		p := &pts[i]
-		w.mc.cur = i
-		rt := router
-		if p.Fresh {
-			rt = coordinator.VerifC11NewRouter(w.mc, w.dbi, w.mst)
-		} else {
-			router.SetSameMst(i > 0)
-		}
-		row := influx.Row{Name: w.mst.Name, Timestamp: p.Time}
-		for _, t := range p.Tags {
-			row.Tags = append(row.Tags, influx.Tag{Key: t[0], Value: t[1]})
-		}
-		row.Fields = append(row.Fields, influx.Field{Key: "usage", NumValue: 1, Type: influx.Field_Type_Float})
-		err, sh, perr := rt.Route(dbName, rpName, &row)
-		switch {
-		case err != nil && strings.Contains(err.Error(), "duplicate tag"):
-			p.Err = "dup"
-		case err != nil:
-			p.Err = "other:" + err.Error()
-		case perr != nil && perr == influx.ErrPointShouldHaveAllShardKey:
-			p.Err = "noshardkey"
-		case perr != nil:
-			p.Err = "other:" + perr.Error()
-		case sh == nil:
-			p.Err = "other:nil shard"
-		default:
-			p.SID = sh.ID
-			if cfg.Typ == meta.HASH {
-				p.HKey = string(row.ShardKey)
-				p.Hash = strconv.FormatUint(meta.HashID(row.ShardKey), 10)
-			}
-		}
-		if p.Err == "" {
-			// which group holds the shard; the statement: exactly one shard, in a group whose span contains t
-			holders := 0
-			ts := time.Unix(0, p.Time)
-			for gi := range w.rpi.ShardGroups {
-				sg := &w.rpi.ShardGroups[gi]
-				for si := range sg.Shards {
-					if sg.Shards[si].ID == p.SID {
-						holders++
-						p.GID = sg.ID
-						if ts.Before(sg.StartTime) || !ts.Before(sg.EndTime) { // half-open span, checked independently of ShardGroupInfo.Contains
-							c.Oracle = append(c.Oracle, fmt.Sprintf("route: point %d (t=%d) stored in shard %d of group %d whose span [%s,%s) does not contain t", i, p.Time, p.SID, sg.ID, nsString(sg.StartTime), nsString(sg.EndTime)))
-						}
-						if sg.Deleted() {
-							c.Oracle = append(c.Oracle, fmt.Sprintf("route: point %d stored in shard %d of deleted group %d", i, p.SID, sg.ID))
-						}
-					}
-				}
-			}
-			if holders != 1 {
-				c.Oracle = append(c.Oracle, fmt.Sprintf("route: point %d: shard %d belongs to %d groups", i, p.SID, holders))
-			}
-		}
-	}
-	// determinism: identical (measurement, tags, time) and identical (shard key, group) give the same shard
-	type rk struct {
-		key string
-		gid uint64
-	}
-	seen := map[rk]uint64{}
-	for i := range pts {
-		p := &pts[i]
-		if p.Err != "" {
-			continue
-		}
-		var sb strings.Builder
-		if cfg.SK == nil {
-			for _, t := range p.Tags {
-				sb.WriteString("," + t[0] + "=" + t[1])
-			}
-		} else {
-			m := map[string]string{}
-			for _, t := range p.Tags {
-				m[t[0]] = t[1]
-			}
-			for _, k := range cfg.SK {
-				sb.WriteString("," + k + "=" + m[k])
-			}
-		}
-		k := rk{sb.String(), p.GID}
-		if prev, ok := seen[k]; ok && prev != p.SID {
-			c.Oracle = append(c.Oracle, fmt.Sprintf("route: shard key %q in group %d went to shards %d and %d", k.key, p.GID, prev, p.SID))
-		}
-		seen[k] = p.SID
-	}
-
-	// ---- read side
-	if cond != nil {
-		w.mst.SchemaLock.RLock()
-		c.CondTags = meta.VerifC11ConditionTags(cond, w.mst.Schema)
-		w.mst.SchemaLock.RUnlock()
-	}
-	groups, err := w.data.ShardGroupsByTimeRange(dbName, rpName, time.Unix(0, c.TMin).UTC(), time.Unix(0, c.TMax).UTC())
-	if err != nil {
-		c.Oracle = append(c.Oracle, "ShardGroupsByTimeRange: "+err.Error())
-	}
-	targets := map[uint64]map[uint64]bool{}
-	c.QGroups = []uint64{}
-	c.Targets = []Target{}
-	// coordinator.mapMstShards: database shard key wins, else the measurement's key for the FIRST group is kept
-	var ski *meta.ShardKeyInfo
-	for i := range groups {
-		if ski == nil {
-			ski = w.mst.GetShardKey(groups[i].ID)
-		}
-		alive := w.mc.GetAliveShards(dbName, &groups[i], true)
-		shs := groups[i].TargetShards(w.mst, ski, cond, alive)
-		t := Target{GID: groups[i].ID, SIDs: []uint64{}}
-		targets[groups[i].ID] = map[uint64]bool{}
-		for _, s := range shs {
-			t.SIDs = append(t.SIDs, s.ID)
-			targets[groups[i].ID][s.ID] = true
-		}
-		c.QGroups = append(c.QGroups, groups[i].ID)
-		c.Targets = append(c.Targets, t)
-	}
-
-	// ---- rows against the query: the DIRECT ORACLE
-	for i := range pts {
-		p := &pts[i]
-		m := map[string]interface{}{}
-		for _, k := range cfg.TagKeys {
-			m[k] = ""
-		}
-		seenKey := map[string]bool{}
-		for _, t := range p.Tags {
-			if !seenKey[t[0]] {
-				m[t[0]] = t[1]
-				seenKey[t[0]] = true
-			}
-		}
-		// field values are a function of the timestamp
-		m["usage"] = float64((p.Time%5+5)%5) * 0.75
-		m["cnt"] = int64((p.Time%3 + 3) % 3 + 1)
-		m["msg"] = []string{"x", "y", "a"}[int((p.Time%3+3)%3)]
-		p.Leaf = make([]bool, len(leaves))
-		for li, le := range leaves {
-			p.Leaf[li] = evalLeaf(le, m, p.Time)
-		}
-		p.Sat = true
-		if c.Cond != nil {
-			p.Sat = evalNode(c.Cond, p.Leaf)
-		}
-		p.InTR = c.TMin <= p.Time && p.Time <= c.TMax
-		if p.Err == "" && p.Sat && p.InTR {
-			tg, ok := targets[p.GID]
-			if !ok {
-				c.Oracle = append(c.Oracle, fmt.Sprintf("prune: point %d (t=%d, tags %v) satisfies the query but its group %d is not consulted", i, p.Time, p.Tags, p.GID))
-			} else if !tg[p.SID] {
-				c.Oracle = append(c.Oracle, fmt.Sprintf("prune: point %d (t=%d, tags %v) satisfies the query but its shard %d of group %d is not consulted", i, p.Time, p.Tags, p.SID, p.GID))
-			}
-		}
-	}
-	c.Points = pts
-	c.Groups = w.snapshotGroups()
-	return c
-}
-
-func genCase(r *gen.Rand, n int) Case {
-	cfg := genCfg(r)
-	times := genTimes(r, cfg.Dur)
-	g := &condGen{r: r, cfg: &cfg}
-	g.keys = append(append([]string{}, cfg.TagKeys...), "nokey")
-	// condition
-	var cs condSpec
-	for tries := 0; ; tries++ {
-		if r.Chance(1, 25) {
-			cs = condSpec{label: "parser"}
-			break
-		}
-		t := g.tree(r.Range(1, 3), times)
-		if r.Chance(1, 4) {
-			e, err := t.parenFree()
-			if err == nil {
-				cs = condSpec{label: "parenfree", expr: e, text: e.String()}
-				break
-			}
-		} else {
-			txt := t.text(false)
-			e, err := influxql.ParseExpr(txt)
-			if err == nil {
-				cs = condSpec{label: "parser", expr: e, text: txt}
-				break
-			}
-		}
-		if tries > 20 {
-			cs = condSpec{label: "parser"}
-			break
-		}
-	}
-	prefer := map[string][]string{}
-	if cs.expr != nil {
-		var tmp []influxql.Expr
-		collectPrefer(toNode(cs.expr, &tmp), prefer)
-	}
-	np := r.Range(5, 10)
-	pts := make([]Point, np)
-	for i := range pts {
-		pts[i].Tags = genPointTags(r, &cfg, prefer)
-		pts[i].Time = gen.Pick(r, times)
-		if r.Chance(1, 30) {
-			pts[i].Time = gen.Pick(r, []int64{-9223372036854775806, 9223372036854775806, 9223372036854775806 - cfg.Dur})
-		}
-		pts[i].Fresh = r.Chance(1, 4)
-		if i > 0 && r.Chance(1, 6) { // same series again, other time
-			pts[i].Tags = pts[r.Intn(i)].Tags
-		}
-	}
-	tmin, tmax := int64(-9223372036854775806), int64(9223372036854775806)
-	if r.Chance(1, 2) {
-		a, b := gen.Pick(r, times), gen.Pick(r, times)
-		if a > b {
-			a, b = b, a
-		}
-		tmin, tmax = a, b
-	}
-	var pre func(w *world)
-	if cfg.Typ == meta.RANGE {
-		// range sharding: a first group with key bounds, as left behind by resharding
-		nb := r.Range(0, 4)
-		var bounds []string
-		for i := 0; i < nb; i++ {
-			b := cfg.Mst
-			if len(cfg.SK) > 0 && r.Chance(4, 5) {
-				b += "," + cfg.SK[0] + "=" + gen.Pick(r, valPool[:5])
-				if len(cfg.SK) > 1 && r.Chance(1, 2) {
-					b += "," + cfg.SK[1] + "=" + gen.Pick(r, valPool[:5])
-				}
-			} else if r.Chance(1, 2) {
-				b += "," + gen.Pick(r, cfg.TagKeys) + "=" + gen.Pick(r, valPool[:5])
-			}
-			if r.Chance(1, 6) {
-				b = b[:r.Intn(len(b)+1)]
-			}
-			bounds = append(bounds, b)
-		}
-		sort.Strings(bounds)
-		var ub []string
-		for i, b := range bounds {
-			if b != "" && (i == 0 || bounds[i-1] != b) {
-				ub = append(ub, b)
-			}
-		}
-		st := alignedStart(times[0], cfg.Dur)
-		pre = func(w *world) { w.addRangeGroup(time.Unix(0, st).UTC(), ub) }
-	} else if r.Chance(1, 8) {
-		// a deleted or truncated group left in the catalogue
-		st := alignedStart(times[0], cfg.Dur)
-		del := r.Bool()
-		pre = func(w *world) {
-			w.mc.cur = -1
-			_, _ = w.mc.CreateShardGroup(dbName, rpName, time.Unix(0, st), 0, config.TSSTORE)
-			sg := &w.rpi.ShardGroups[0]
-			if del {
-				sg.DeletedAt = time.Unix(1, 0).UTC()
-			} else {
-				sg.TruncatedAt = time.Unix(0, st+cfg.Dur/2).UTC()
-			}
-		}
-	}
-	return runCase(n, cfg, cs, pts, tmin, tmax, r.Chance(1, 3), pre)
-}
-
-// the design's witnesses, always run first
-func witnessCases() []Case {
-	var res []Case
-	mk := func(n int, cfg Cfg, label, text string, e influxql.Expr, tagsets [][][2]string) {
-		base := alignedStart(int64(1700000000)*1000000000, cfg.Dur)
-		var pts []Point
-		for i, ts := range tagsets {
-			pts = append(pts, Point{Tags: ts, Time: base + int64(i)})
-		}
-		res = append(res, runCase(n, cfg, condSpec{label: label, expr: e, text: text}, pts, -9223372036854775806, 9223372036854775806, false, nil))
-	}
-	h := int64(time.Hour)
-	// W1: host='a' OR usage > 1, shard key host, 8 shards
-	{
-		txt := `host = 'a' OR usage > 1`
-		e, _ := influxql.ParseExpr(txt)
-		var ts [][][2]string
-		for _, v := range []string{"a", "b", "c", "d", "e", "f", "g", "h", "i", "j", "k", "l"} {
-			ts = append(ts, [][2]string{{"host", v}})
-		}
-		mk(-1, Cfg{Mst: "cpu", TagKeys: []string{"dc", "host"}, SK: []string{"host"}, Typ: meta.HASH, Dur: h, PtNum: 8}, "parser", txt, e, ts)
-	}
-	// W2: paren-free AND(host=h, OR(dc=x, dc=y)), shard key (dc, host); several value choices so that the two
-	// alternatives fall into different shards for at least one of them whatever the hash
-	for wi, vs := range [][3]string{{"a", "1", "2"}, {"b", "2", "3"}, {"c", "1", "3"}, {"a", "3", "4"}} {
-		l, _ := influxql.ParseExpr(`host = '` + vs[0] + `'`)
-		a, _ := influxql.ParseExpr(`dc = '` + vs[1] + `'`)
-		b, _ := influxql.ParseExpr(`dc = '` + vs[2] + `'`)
-		e := &influxql.BinaryExpr{Op: influxql.AND, LHS: l, RHS: &influxql.BinaryExpr{Op: influxql.OR, LHS: a, RHS: b}}
-		ts := [][][2]string{{{"dc", vs[1]}, {"host", vs[0]}}, {{"dc", vs[2]}, {"host", vs[0]}}, {{"dc", vs[2]}, {"host", "z"}}, {{"dc", "9"}, {"host", vs[0]}}}
-		mk(-2, Cfg{Mst: "cpu", TagKeys: []string{"dc", "host"}, SK: []string{"dc", "host"}, Typ: meta.HASH, Dur: h, PtNum: 8}, "parenfree", e.String(), e, ts)
-		if wi == 0 {
-			// W3: the same through the parser: the parenthesised OR arrives as a ParenExpr
-			txt := `host = 'a' AND (dc = '1' OR dc = '2')`
-			e2, _ := influxql.ParseExpr(txt)
-			mk(-3, Cfg{Mst: "cpu", TagKeys: []string{"dc", "host"}, SK: []string{"dc", "host"}, Typ: meta.HASH, Dur: h, PtNum: 8}, "parser", txt, e2, ts)
-		}
-	}
-	// W4: two alternatives for the one shard-key tag
-	{
-		txt := `host = 'a' OR host = 'b' OR host = 'c'`
-		e, _ := influxql.ParseExpr(txt)
-		var ts [][][2]string
-		for _, v := range []string{"a", "b", "c", "d", "e", "f"} {
-			ts = append(ts, [][2]string{{"host", v}})
-		}
-		mk(-4, Cfg{Mst: "cpu", TagKeys: []string{"dc", "host"}, SK: []string{"host"}, Typ: meta.HASH, Dur: h, PtNum: 16}, "parser", txt, e, ts)
-	}
-	return res
-}
-
-func main() {
-	n := 400
-	if gen.Tier() == "thorough" {
-		n = 8000
-	}
-	if len(os.Args) > 1 && os.Args[1] == "replay" {
-		replay(os.Args[2])
-		return
-	}
-	if len(os.Args) > 1 {
-		n, _ = strconv.Atoi(os.Args[1])
-	}
-	out := bufio.NewWriterSize(os.Stdout, 1<<20)
-	defer out.Flush()
-	enc := json.NewEncoder(out)
-	for _, c := range witnessCases() {
-		_ = enc.Encode(c)
-	}
-	r := gen.FromEnv(11)
-	for i := 0; i < n; i++ {
-		_ = enc.Encode(genCase(r.Fork(), i))
-	}
-}
-
-// replay: re-run one recorded case (its configuration, condition text/label, points, time range) on the implementation
-func replay(path string) {
-	b, err := os.ReadFile(path)
-	if err != nil {
-		fmt.Fprintln(os.Stderr, err)
-		os.Exit(2)
-	}
-	var wrap struct {
-		Case Case `json:"case"`
-	}
-	if err := json.Unmarshal(b, &wrap); err != nil {
-		fmt.Fprintln(os.Stderr, err)
-		os.Exit(2)
-	}
-	c := wrap.Case
-	var e influxql.Expr
-	if c.HasCond {
-		e = fromNode(c.Cond)
-	}
-	pts := make([]Point, len(c.Points))
-	for i, p := range c.Points {
-		pts[i] = Point{Tags: p.Tags, Time: p.Time, Fresh: p.Fresh}
-	}
-	var pre func(w *world)
-	var preGroups []Group
-	for _, g := range c.Groups {
-		if g.Born < 0 {
-			preGroups = append(preGroups, g)
-		}
-	}
-	if len(preGroups) > 0 {
-		pre = func(w *world) {
-			for _, g := range preGroups {
-				st, _ := strconv.ParseInt(g.Start, 10, 64)
-				if c.Cfg.Typ == meta.RANGE {
-					var bounds []string
-					for i := 0; i+1 < len(g.Shards); i++ {
-						bounds = append(bounds, g.Shards[i].Max)
-					}
-					w.addRangeGroup(time.Unix(0, st).UTC(), bounds)
-				} else {
-					_, _ = w.mc.CreateShardGroup(dbName, rpName, time.Unix(0, st), 0, config.TSSTORE)
-					sg := &w.rpi.ShardGroups[len(w.rpi.ShardGroups)-1]
-					if g.Deleted {
-						sg.DeletedAt = time.Unix(1, 0).UTC()
-					}
-					if g.Trunc != nil {
-						tr, _ := strconv.ParseInt(*g.Trunc, 10, 64)
-						sg.TruncatedAt = time.Unix(0, tr).UTC()
-					}
-				}
-			}
-		}
-	}
-	res := runCase(c.N, c.Cfg, condSpec{label: c.Label, expr: e, text: c.CondText}, pts, c.TMin, c.TMax, false, pre)
-	gen.Emit(res)
-}
-
-// fromNode rebuilds the AST from the recorded tree (leaf texts are re-parsed)
-func fromNode(n *Node) influxql.Expr {
-	switch n.Op {
-	case "and":
-		return &influxql.BinaryExpr{Op: influxql.AND, LHS: fromNode(n.L), RHS: fromNode(n.R)}
-	case "or":
-		return &influxql.BinaryExpr{Op: influxql.OR, LHS: fromNode(n.L), RHS: fromNode(n.R)}
-	case "paren":
-		return &influxql.ParenExpr{Expr: fromNode(n.L)}
-	}
-	e, err := influxql.ParseExpr(n.S)
-	if err != nil {
-		panic(err)
-	}
-	return e
-}
